@@ -77,4 +77,11 @@ let () = main_loop (fun w -> match w with
     sz a ^ " " ^ sb b ^ sb c ^ sb d
   | ["pred"; "poll"; r; wr; acc] ->
     sb (gen_poll_r (bs r) (bs wr) (bs acc)) ^ sb (gen_poll_w (bs r) (bs wr) (bs acc)) ^ sb (gen_poll_e (bs r) (bs wr) (bs acc))
+  | ["pred"; "polldispatch"; a; b; c] ->
+    let ((x, y), z) = gen_poll_dispatch (bs a) (bs b) (bs c) in sb x ^ sb y ^ sb z
+  | ["pred"; "poll2reg"; r; wr; acc] ->
+    let (f, reg) = gen_poll2_reg (bs r) (bs wr) (bs acc) in
+    sb f.pf_in ^ sb f.pf_pri ^ sb f.pf_out ^ sb f.pf_err ^ sb f.pf_hup ^ sb f.pf_nval ^ " " ^ sb reg
+  | ["pred"; "readwrite"; i; p; o; e; h; n] ->
+    let (((a, b), c), d) = gen_readwrite (bs i) (bs p) (bs o) (bs e) (bs h) (bs n) in sb a ^ sb b ^ sb c ^ sb d
   | _ -> "ERR bad command")
